@@ -1,4 +1,4 @@
-use cosmwasm_std::{Api, DepsMut, Env, MessageInfo, Response, SubMsg};
+use cosmwasm_std::{Api, DepsMut, Env, MessageInfo, Response, StdError, SubMsg};
 
 use white_whale_std::epoch_manager::epoch_manager::EpochConfig;
 use white_whale_std::epoch_manager::hooks::EpochChangedHookMsg;
@@ -67,6 +67,19 @@ pub fn create_epoch(deps: DepsMut, env: Env) -> Result<Response, ContractError> 
 }
 
 /// Updates the config of the contract.
+/// An epoch lasts at least one day (the fee distributor enforces the same bound on its own epochs)
+pub const MIN_EPOCH_DURATION_IN_NANOSECONDS: u64 = 86_400_000_000_000u64;
+
+/// Rejects an epoch configuration whose duration is shorter than a day
+pub fn validate_epoch_duration(epoch_config: &EpochConfig) -> Result<(), ContractError> {
+    if epoch_config.duration.u64() < MIN_EPOCH_DURATION_IN_NANOSECONDS {
+        return Err(ContractError::Std(StdError::generic_err(
+            "The epoch duration must be at least one day",
+        )));
+    }
+    Ok(())
+}
+
 pub fn update_config(
     mut deps: DepsMut,
     info: &MessageInfo,
@@ -74,6 +87,10 @@ pub fn update_config(
     epoch_config: Option<EpochConfig>,
 ) -> Result<Response, ContractError> {
     ADMIN.assert_admin(deps.as_ref(), &info.sender)?;
+
+    if let Some(epoch_config) = &epoch_config {
+        validate_epoch_duration(epoch_config)?;
+    }
 
     if let Some(owner) = owner.clone() {
         let new_admin = deps.api.addr_validate(owner.as_str())?;
